@@ -53,7 +53,7 @@ pub struct Device {
 
 use DisabledOptions::*;
 
-use crate::instruction::operation::Operation;
+use crate::instruction::{operation::Operation, register::Reg16, IndexOps, InstructionOps};
 
 impl Device {
     pub fn new(flash_size: u32) -> Self {
@@ -104,6 +104,35 @@ impl Device {
                     false
                 }
             }
+            _ => true,
+        }
+    }
+
+    /// Like check_operation, but also looks at the addressing form of the operands
+    pub fn check_instruction(&self, op: &Operation, op_args: &[InstructionOps]) -> bool {
+        if !self.check_operation(op) {
+            return false;
+        }
+        match op {
+            Operation::Ld | Operation::St | Operation::Ldd | Operation::Std => {
+                op_args.iter().all(|arg| match arg {
+                    InstructionOps::Index(
+                        IndexOps::None(r)
+                        | IndexOps::PostIncrement(r)
+                        | IndexOps::PreDecrement(r)
+                        | IndexOps::PostIncrementE(r, _),
+                    ) => match r {
+                        Reg16::X => self.allow(NoXreg),
+                        Reg16::Y => self.allow(NoYreg),
+                        Reg16::Z => true,
+                    },
+                    _ => true,
+                })
+            }
+            // LPM Rd, Z / LPM Rd, Z+
+            Operation::Lpm if !op_args.is_empty() => self.allow(NoLpmX),
+            // ELPM Rd, Z / ELPM Rd, Z+
+            Operation::Elpm if !op_args.is_empty() => self.allow(NoElpmX),
             _ => true,
         }
     }
